@@ -295,6 +295,25 @@ def check_gate(ctx, gate):
                      'a passed gate leaves the decision to the check'
                      if ok else 'after a passed gate the check is not '
                      'evaluated')
+        # a named policy found in the store is decided by evaluating its
+        # check behind the gate: a path that decides it some other way (a
+        # verdict computed from the rule's class, say) has passed no gate
+        if not checks and not gates and p.outcome.kind == 'return':
+            named_path = any(
+                c.kind == 'test' and not c.pol and isinstance(
+                    c.expr, ast.Call) and U(c.expr.func) == 'isinstance'
+                and U(c.expr.args[0]) == 'rule' for c in p.conds)
+            not_found = any(
+                (c.kind == 'exc' and 'KeyError' in str(getattr(
+                    c.expr, 'value', ''))) or
+                (c.kind == 'test' and not c.pol and U(t.expand(c.expr)) in (
+                    'self.rules',)) for c in p.conds)
+            if named_path and not not_found:
+                once('C08.GATE', False, p.outcome.line,
+                     'named policy decided without evaluation',
+                     'a named policy that the store defines is decided '
+                     'without calling its check and without the scope gate '
+                     '(path: %s)' % p.cond_text()[-200:])
         # paths that evaluate a check without a gate: the subject must lack
         # scope types
         for ci, ce in checks:
